@@ -1,4 +1,5 @@
 import Driver.Common
+import Driver.CertShow
 namespace Driver.C04
 open Driver
 
@@ -25,6 +26,13 @@ def handle (toks : List String) (impl : String) : Verdict :=
               else none
             | none => some "unreadable result"
           | _ => some "unreadable result" }
+  | ["certd", h] =>
+    -- the Lean certificate decoder on the same octets: accept/reject, every field, the ten inspections
+    match (parseHex h).map (·.map UInt8.toNat) with
+    | none => badOp "hex"
+    | some b =>
+      { model := some (Driver.CertShow.certLine b),
+        oracle := if impl = "panic" then some "Cert::decode or an accessor of the decoded certificate panicked" else none }
   | _ => badOp "unknown op"
 
 end Driver.C04
